@@ -25,10 +25,12 @@
 package main
 
 import (
+	"bytes"
 	"crypto/rand"
 	"crypto/sha256"
 	"encoding/base64"
 	"encoding/binary"
+	"errors"
 	"fmt"
 	"os"
 	"runtime"
@@ -108,9 +110,21 @@ func q(s string) string {
 type ctrReader struct {
 	seed, n uint64
 	buf     []byte
+	// failure injection (layer F): Read calls are counted from the last arm(); call number failAt (1-based)
+	// fails, and every later one too when sticky. failAt 0 = the source never fails.
+	calls, failAt int
+	sticky        bool
 }
 
+var errNoEntropy = errors.New("entropy source unavailable")
+
+func (c *ctrReader) arm(failAt int, sticky bool) { c.calls, c.failAt, c.sticky = 0, failAt, sticky }
+
 func (c *ctrReader) Read(p []byte) (int, error) {
+	c.calls++
+	if c.failAt > 0 && (c.calls == c.failAt || (c.sticky && c.calls > c.failAt)) {
+		return 0, errNoEntropy
+	}
 	for i := range p {
 		if len(c.buf) == 0 {
 			var in [16]byte
@@ -128,7 +142,7 @@ func (c *ctrReader) Read(p []byte) (int, error) {
 
 var rnd = &ctrReader{}
 
-func reseed(s uint64) { rnd.seed, rnd.n, rnd.buf = s, 0, nil }
+func reseed(s uint64) { rnd.seed, rnd.n, rnd.buf = s, 0, nil; rnd.arm(0, false) }
 
 // ---------------------------------------------------------------------------
 // the application under test and one exchange with it
@@ -136,10 +150,11 @@ func reseed(s uint64) { rnd.seed, rnd.n, rnd.buf = s, 0, nil }
 type ck struct{ N, V string }
 
 var (
-	gSet  []ck
-	gView []ck
-	gGet  map[string]string
-	gRan  int
+	gSet   []ck
+	gView  []ck
+	gGet   map[string]string
+	gRan   int
+	gNames = names // the names the handlers read through c.Cookies(); layers N, M set their own list
 )
 
 func handler(c fiber.Ctx) error {
@@ -147,7 +162,7 @@ func handler(c fiber.Ctx) error {
 	c.Request().Header.VisitAllCookie(func(k, v []byte) {
 		gView = append(gView, ck{string(k), string(v)})
 	})
-	for _, n := range names {
+	for _, n := range gNames {
 		gGet[n] = string([]byte(c.Cookies(n)))
 	}
 	for _, s := range gSet {
@@ -219,9 +234,14 @@ func doPath(app *fiber.App, path string, cookieHdrs [][]byte) (e *exch) {
 		reqBuf = append(reqBuf, '\r', '\n')
 	}
 	reqBuf = append(reqBuf, '\r', '\n')
+	return doRaw(app, reqBuf)
+}
+
+// doRaw serves the request bytes on a fresh in-memory connection.
+func doRaw(app *fiber.App, raw []byte) (e *exch) {
 	gView, gGet, gRan, gRanFinal = nil, map[string]string{}, 0, 0
 	e = &exch{}
-	conn := fx.NewWireConn(reqBuf, nil)
+	conn := fx.NewWireConn(raw, nil)
 	func() {
 		defer func() {
 			if p := recover(); p != nil {
@@ -233,7 +253,7 @@ func doPath(app *fiber.App, path string, cookieHdrs [][]byte) (e *exch) {
 	e.View, e.Get, e.Ran = gView, gGet, gRan
 	e.Raw = conn.Output()
 	if e.Panic == nil {
-		e.Resp, e.ParseErr = parseResponse(e.Raw)
+		e.Resp, e.ParseErr = parseResponseOf(e.Raw, bytes.HasPrefix(raw, []byte("HEAD ")))
 	}
 	return e
 }
@@ -277,6 +297,57 @@ type cx struct {
 	extra    map[string]any
 	endClass string
 	setAt    []string
+	// layers F-N (dims.go): the Except list when it is not a subset of names (mask is ignored then), and a
+	// qualifier naming the class of the new dimension the case belongs to (appended to every signature)
+	exc    []string
+	useExc bool
+	qual   string
+	qualFn func(cookie string) string // layer N: the qualifier depends on the cookie the violation is about
+	cur    string                     // that cookie ("" = the exchange as a whole)
+	// layer K: a violation is reported under the smallest set of non-default request components that shows it
+	fold     map[string][]int
+	foldMask int
+}
+
+func (x *cx) isExc(name string) bool {
+	if !x.useExc {
+		return excepted(x.mask, name)
+	}
+	for _, n := range x.exc {
+		if n == name {
+			return true
+		}
+	}
+	return false
+}
+
+func (x *cx) exceptList() []string {
+	if x.useExc {
+		return x.exc
+	}
+	return exceptOf(x.mask)
+}
+
+// violate is l.Violate with the qualifier of the case's dimension class appended to the signature.
+func (x *cx) violate(sig, what string, cs map[string]any, got, want any) {
+	full := sig + x.qual
+	if x.qualFn != nil {
+		full = sig + x.qualFn(x.cur)
+	}
+	if x.fold != nil {
+		known := false
+		for _, m := range x.fold[sig] {
+			if m != x.foldMask && m&x.foldMask == m {
+				x.l.Add("violations_folded_into_simpler_request", 1)
+				return
+			}
+			known = known || m == x.foldMask
+		}
+		if !known {
+			x.fold[sig] = append(x.fold[sig], x.foldMask)
+		}
+	}
+	x.l.Violate(full, what, cs, got, want)
 }
 
 // endSfx is appended to response-side signatures: empty in layers A-D (handler returns nil, 200).
@@ -295,7 +366,7 @@ func (x *cx) caseMap(req []sent, set []ck, e *exch) map[string]any {
 	for _, s := range set {
 		st = append(st, s.N+"="+q(s.V))
 	}
-	m := map[string]any{"layer": x.layer, "key_base64": keys[x.ki], "key_bytes": keyBytes[x.ki], "except": exceptOf(x.mask),
+	m := map[string]any{"layer": x.layer, "key_base64": keys[x.ki], "key_bytes": keyBytes[x.ki], "except": x.exceptList(),
 		"request_cookies": rq, "handler_sets": st}
 	for k, v := range x.extra {
 		m[k] = v
@@ -338,13 +409,13 @@ func gotClass(got string, s *sent) string {
 func (x *cx) sound(e *exch, req []sent, set []ck) bool {
 	switch {
 	case e.Panic != nil:
-		x.l.Violate("panic-in-exchange layer="+x.layer, "the server panicked while serving the request", x.caseMap(req, set, e), e.Panic, "a response")
+		x.violate("panic-in-exchange layer="+x.layer, "the server panicked while serving the request", x.caseMap(req, set, e), e.Panic, "a response")
 	case e.ParseErr != nil:
-		x.l.Violate("response-unparseable", "the response is not a well-formed HTTP/1.1 message: "+e.ParseErr.Error(), x.caseMap(req, set, e), nil, nil)
+		x.violate("response-unparseable", "the response is not a well-formed HTTP/1.1 message: "+e.ParseErr.Error(), x.caseMap(req, set, e), nil, nil)
 	case e.Resp.Status != 200:
-		x.l.Violate("status-not-200 status="+strconv.Itoa(e.Resp.Status), "unexpected status", x.caseMap(req, set, e), e.Resp.Status, 200)
+		x.violate("status-not-200 status="+strconv.Itoa(e.Resp.Status), "unexpected status", x.caseMap(req, set, e), e.Resp.Status, 200)
 	case e.Ran != 1:
-		x.l.Violate("handler-runs="+strconv.Itoa(e.Ran), "the handler did not run exactly once", x.caseMap(req, set, e), e.Ran, 1)
+		x.violate("handler-runs="+strconv.Itoa(e.Ran), "the handler did not run exactly once", x.caseMap(req, set, e), e.Ran, 1)
 	default:
 		return true
 	}
@@ -360,11 +431,11 @@ func (x *cx) judge(s *sent, got, channel string, role string, req []sent, set []
 		if got != s.Must {
 			ok = false
 			if s.Kind == "issued" && role == "target" {
-				x.l.Violate(fmt.Sprintf("roundtrip-value-changed value-class=%s got=%s", valueClass(s.Must), rtClass(s.Must, got, s.Text)),
+				x.violate(fmt.Sprintf("roundtrip-value-changed value-class=%s got=%s", valueClass(s.Must), rtClass(s.Must, got, s.Text)),
 					"a cookie issued by the server and sent back unmodified does not reach the handler with its original value",
 					x.caseMap(req, set, e), q(got), q(s.Must))
 			} else {
-				x.l.Violate(fmt.Sprintf("valid-cookie-damaged role=%s kind=%s got=%s channel=%s", role, s.Kind, rtClass(s.Must, got, s.Text), channel),
+				x.violate(fmt.Sprintf("valid-cookie-damaged role=%s kind=%s got=%s channel=%s", role, s.Kind, rtClass(s.Must, got, s.Text), channel),
 					"a validly issued cookie of the request does not reach the handler with its value", x.caseMap(req, set, e), q(got), q(s.Must))
 			}
 		}
@@ -375,7 +446,7 @@ func (x *cx) judge(s *sent, got, channel string, role string, req []sent, set []
 			x.l.Add("altered_same_bytes_accepted", 1)
 		default:
 			ok = false
-			x.l.Violate(fmt.Sprintf("tamper-accepted kind=%s got=%s channel=%s", s.Kind, gotClass(got, s), channel),
+			x.violate(fmt.Sprintf("tamper-accepted kind=%s got=%s channel=%s", s.Kind, gotClass(got, s), channel),
 				"a cookie value that was not issued under the current key reaches the handler as text other than \"\"",
 				x.caseMap(req, set, e), q(got), `"" (or the issued value only if the text decodes to the issued bytes)`)
 		}
@@ -385,14 +456,14 @@ func (x *cx) judge(s *sent, got, channel string, role string, req []sent, set []
 			ok = ok || got == o
 		}
 		if !ok {
-			x.l.Violate(fmt.Sprintf("foreign-cookie-wrong-text kind=%s got=%s channel=%s", s.Kind, gotClass(got, s), channel),
+			x.violate(fmt.Sprintf("foreign-cookie-wrong-text kind=%s got=%s channel=%s", s.Kind, gotClass(got, s), channel),
 				"a cookie issued for another name/value reaches the handler as text that is neither \"\" nor the value it was issued for",
 				x.caseMap(req, set, e), q(got), fmt.Sprint(s.OneOf))
 		}
 	case mBase:
 		if got != base {
 			ok = false
-			x.l.Violate(fmt.Sprintf("excepted-request-cookie-changed kind=%s got=%s channel=%s", s.Kind, gotClass(got, s), channel),
+			x.violate(fmt.Sprintf("excepted-request-cookie-changed kind=%s got=%s channel=%s", s.Kind, gotClass(got, s), channel),
 				"a request cookie whose name is in Except does not reach the handler unchanged", x.caseMap(req, set, e), q(got), q(base))
 		}
 	}
@@ -432,14 +503,16 @@ func (x *cx) checkView(e, b *exch, req []sent, target int, set []ck) bool {
 	}
 	for _, v := range e.View {
 		if !known[v.N] {
-			x.l.Violate("request-cookie-unexpected-name", "the handler sees a cookie name the request did not carry", x.caseMap(req, set, e), v.N, nil)
+			x.violate("request-cookie-unexpected-name", "the handler sees a cookie name the request did not carry", x.caseMap(req, set, e), v.N, nil)
 			return false
 		}
 	}
 	ok := true
 	present := 0
+	defer func() { x.cur = "" }()
 	for i := range req {
 		s := &req[i]
+		x.cur = s.Name
 		role := "bystander"
 		if i == target || target < 0 {
 			role = "target"
@@ -468,7 +541,7 @@ func (x *cx) checkView(e, b *exch, req []sent, target int, set []ck) bool {
 			}
 			if !mayBeAbsent {
 				ok = false
-				x.l.Violate(fmt.Sprintf("request-cookie-missing role=%s kind=%s", role, s.Kind),
+				x.violate(fmt.Sprintf("request-cookie-missing role=%s kind=%s", role, s.Kind),
 					"a cookie of the request that has to reach the handler with a value is not seen by the handler at all (skipped/removed)", x.caseMap(req, set, e), nil, nil)
 				continue
 			}
@@ -481,7 +554,7 @@ func (x *cx) checkView(e, b *exch, req []sent, target int, set []ck) bool {
 			present++
 		default:
 			ok = false
-			x.l.Violate(fmt.Sprintf("request-cookie-duplicated role=%s kind=%s", role, s.Kind),
+			x.violate(fmt.Sprintf("request-cookie-duplicated role=%s kind=%s", role, s.Kind),
 				"the handler sees a cookie of the request more than once", x.caseMap(req, set, e), cnt[s.Name], 1)
 			continue
 		}
@@ -511,23 +584,25 @@ func (x *cx) checkResp(e, b *exch, req []sent, set []ck) []string {
 	}
 	got := e.Resp.SetCookies
 	if len(got) != len(set) {
-		x.l.Violate(fmt.Sprintf("set-cookie-count set=%d on-wire=%d", len(set), len(got))+x.endSfx(),
+		x.violate(fmt.Sprintf("set-cookie-count set=%d on-wire=%d", len(set), len(got))+x.endSfx(),
 			"the response does not carry exactly one Set-Cookie per cookie the handler set", x.caseMap(req, set, e), len(got), len(set))
 		return nil
 	}
 	byName := map[string]int{}
 	for i, sc := range got {
 		if _, dup := byName[sc.Name]; dup {
-			x.l.Violate("set-cookie-duplicated"+x.endSfx(), "a cookie name appears twice on the wire", x.caseMap(req, set, e), sc.Name, nil)
+			x.violate("set-cookie-duplicated"+x.endSfx(), "a cookie name appears twice on the wire", x.caseMap(req, set, e), sc.Name, nil)
 			return nil
 		}
 		byName[sc.Name] = i
 	}
 	wire := make([]string, len(set))
+	defer func() { x.cur = "" }()
 	for i, s := range set {
+		x.cur = s.N
 		j, okn := byName[s.N]
 		if !okn {
-			x.l.Violate("set-cookie-missing"+x.endSfx(), "a cookie the handler set is not on the wire", x.caseMap(req, set, e), s.N, nil)
+			x.violate("set-cookie-missing"+x.endSfx(), "a cookie the handler set is not on the wire", x.caseMap(req, set, e), s.N, nil)
 			return nil
 		}
 		if j != i {
@@ -539,9 +614,9 @@ func (x *cx) checkResp(e, b *exch, req []sent, set []ck) []string {
 			core.Fatal("baseline Set-Cookie order differs: %v", x.caseMap(req, set, b))
 		}
 		wire[i] = sc.Value
-		if excepted(x.mask, s.N) {
+		if x.isExc(s.N) {
 			if sc.Line != bl.Line {
-				x.l.Violate("excepted-response-cookie-changed value-class="+valueClass(s.V)+x.endSfx(),
+				x.violate("excepted-response-cookie-changed value-class="+valueClass(s.V)+x.endSfx(),
 					"a response cookie whose name is in Except is not on the wire as the handler set it", x.caseMap(req, set, e), q(sc.Line), q(bl.Line))
 			} else {
 				x.l.Outcome("response: excepted cookie byte-identical to no-middleware line")
@@ -571,7 +646,7 @@ func (x *cx) checkResp(e, b *exch, req []sent, set []ck) []string {
 				// layer E: the class is how the exchange ended and where the cookie was set
 				sig = fmt.Sprintf("plaintext-on-wire end=%s set-at=%s", x.endClass, x.setAt[i])
 			}
-			x.l.Violate(sig, "a non-excepted cookie reaches the client with its plaintext ("+leak+")", x.caseMap(req, set, e), q(sc.Line), "ciphertext only")
+			x.violate(sig, "a non-excepted cookie reaches the client with its plaintext ("+leak+")", x.caseMap(req, set, e), q(sc.Line), "ciphertext only")
 			continue
 		}
 		if !distinctive(s.V) {
@@ -1187,6 +1262,8 @@ type item struct {
 	St    int // layer E: 0 app.Use chain, 1 route-level handler chain
 	Part  int // layer A, 4 KiB value: the manipulations are split by position into Parts work items
 	Parts int
+	// layers F-N (dims.go)
+	Li, K, Len, ExcMode, Next, Rec, Cause int
 }
 
 // cost is a rough relative CPU estimate used only to balance the static assignment to workers.
@@ -1211,6 +1288,16 @@ func (it item) cost(thorough bool) float64 {
 			return 0.6
 		}
 		return 0.15
+	case "N":
+		return 0.06
+	case "M":
+		return 0.004 * float64(it.K)
+	case "L":
+		return 0.00004 * float64(it.Len)
+	case "K":
+		return 0.12
+	case "F":
+		return 0.02
 	}
 	return 0.01
 }
@@ -1335,6 +1422,46 @@ func main() {
 		}
 	}
 
+	// layers F-N: appended behind layer E for the same reason
+	manyK := []int{4, 8, 13, 24, 64}
+	longLens := []int{1000, 4096, 4097, 20000}
+	masksK := []int{0, 2, 5}
+	if !quick {
+		manyK = []int{4, 8, 13, 24, 64, 120, 200}
+		longLens = []int{1000, 2500, 4096, 4097, 20000, 30000}
+		masksK = []int{0, 1, 2, 3, 4, 5, 6, 7}
+	}
+	nLists := len(exceptLists())
+	for _, ki := range keysB {
+		for li := 0; li < nLists; li++ {
+			items = append(items, item{Layer: "N", Ki: ki, Li: li})
+		}
+		for _, k := range manyK {
+			for em := 0; em < 2; em++ {
+				items = append(items, item{Layer: "M", Ki: ki, K: k, ExcMode: em})
+			}
+		}
+		for ni := range names {
+			for _, n := range longLens {
+				for em := 0; em < 3; em++ {
+					items = append(items, item{Layer: "L", Ki: ki, Ni: ni, Len: n, ExcMode: em})
+				}
+			}
+		}
+		for _, mask := range masksK {
+			for nx := 0; nx < 3; nx++ {
+				items = append(items, item{Layer: "K", Ki: ki, Mask: mask, Next: nx})
+			}
+		}
+		for mask := 0; mask < 8; mask++ {
+			for rec := 0; rec < 2; rec++ {
+				for cause := 0; cause < 2; cause++ {
+					items = append(items, item{Layer: "F", Ki: ki, Mask: mask, Rec: rec, Cause: cause})
+				}
+			}
+		}
+	}
+
 	if r.IsWorker() {
 		// the live heap of a worker is tiny and every exchange leaves a few KiB of garbage:
 		// with the default GOGC more than a third of the CPU went into back-to-back GC cycles
@@ -1370,6 +1497,16 @@ func main() {
 				layerD(l, it.Ki, it.Ni, vals)
 			case "E":
 				layerE(l, it.Ki, it.Mask, it.EH, it.St, menuE, it.St == 0 && ((it.Ki == 0 && it.Mask == 0 && it.EH == 0) || (it.Ki == 4 && it.Mask == 2 && it.EH == 1)))
+			case "N":
+				layerN(l, it.Ki, it.Li, it.Ki == 2 && it.Li == 17)
+			case "M":
+				layerM(l, it.Ki, it.K, it.ExcMode, it.Ki == 0 && it.K == 13 && it.ExcMode == 1)
+			case "L":
+				layerL(l, it.Ki, it.Ni, it.Len, it.ExcMode, it.Ki == 4 && it.Ni == 1 && it.Len == 4097 && it.ExcMode == 0)
+			case "K":
+				layerK(l, it.Ki, it.Mask, it.Next, it.Ki == 0 && it.Mask == 2 && it.Next == nextSkipPath)
+			case "F":
+				layerF(l, it.Ki, it.Mask, it.Rec, it.Cause, it.Ki == 2 && it.Mask == 1 && it.Rec == 1 && it.Cause == 0)
 			}
 			l.Add("work_items", 1)
 			if os.Getenv("VERIF_PROGRESS") != "" {
@@ -1401,10 +1538,23 @@ func main() {
 	if r.Replay == "" {
 		runConcurrentEnc(r) // two requests in flight on one middleware instance (small; runs in this process)
 	}
+	foldNextQualifier(r.P.Violations)
+	if os.Getenv("C20_OUTCOMES") != "" { // development aid: the outcome histogram (the evidence file lists it only up to 40 keys)
+		var ks []string
+		for k := range r.P.Outcomes {
+			ks = append(ks, k)
+		}
+		sort.Strings(ks)
+		for _, k := range ks {
+			fmt.Fprintf(os.Stderr, "OUTCOME %8d  %s\n", r.P.Outcomes[k], k)
+		}
+	}
 	sort.Slice(r.P.Samples, func(i, j int) bool { return core.Key(r.P.Samples[i]) < core.Key(r.P.Samples[j]) })
 	c := r.P.Counters
 	if len(r.P.Violations) == 0 && len(r.P.Caps) == 0 {
-		for _, k := range []string{"replay_ok", "tamper_rejected_or_same", "altered_same_bytes_accepted", "excepted_req_pass", "excepted_resp_pass", "encrypted_resp", "otherkey_rejected", "multi_cookie_exchanges", "dup_name_requests", "ends_exchanges", "ends_error_status_encrypted", "ends_error_returned_encrypted"} {
+		for _, k := range []string{"replay_ok", "tamper_rejected_or_same", "altered_same_bytes_accepted", "excepted_req_pass", "excepted_resp_pass", "encrypted_resp", "otherkey_rejected", "multi_cookie_exchanges", "dup_name_requests", "ends_exchanges", "ends_error_status_encrypted", "ends_error_returned_encrypted",
+			"names_exchanges", "names_rel_listed", "names_rel_case-variant-of-listed", "names_rel_one-byte-off-listed", "names_rel_prefix-of-listed", "names_rel_extends-listed", "names_rel_ends-with-listed", "names_rel_unrelated",
+			"many_exchanges", "long_exchanges", "kind_exchanges", "next_true_requests", "next_false_processed", "encfail_exchanges", "encfail_no_response", "encfail_next_exchange_ok"} {
 			if c[k] == 0 {
 				core.Fatal("vacuous exploration: mechanism counter %s is 0", k)
 			}
@@ -1419,10 +1569,13 @@ func main() {
 		Coverage: map[string]any{
 			"evaluations":         c["evaluations"],
 			"distinct_nontrivial": c["nontrivial"],
-			"rule": fmt.Sprintf("every request/response exchange with the real middleware over ServeConn is one evaluation. Layer A: %d keys x %d names x %d values x 8 Except subsets (the 4 KiB value of the thorough tier: 3 Except sets), one cookie: issue, replay, then EVERY substitution of every character by each of the %d characters of base64+'='+'-'+' ', every prefix and suffix truncation, every one-character insertion at every position, the ciphertext of each other key, of each other value, of each other name, and the plaintext. Layer B: %d keys x all ordered name tuples of size 2 (value menu %d^2) and 3 (value menu %d^3) x 8 Except subsets: issue, replay in one / in separate Cookie headers while the handler sets cookies again, then a fixed family of ~85 manipulations on each position with the others valid, then all non-excepted positions manipulated at once. Layer C: %d invalid keys. Layer D: duplicate-name requests. Layer E (how the exchange ends): %d keys x 8 Except subsets x {default, custom ErrorHandler} x {app.Use chain, route-level handler chain} x %d handler ends (return nil with/without body, 201, redirect, SendStatus 403/502, *fiber.Error 401/503, plain error, body then *fiber.Error, wrapped *fiber.Error, c.Next() with no further route, no route at all, panic behind the recover middleware) x {downstream middleware propagates / answers the error} x cookie placements over 4 slots (downstream middleware before/after c.Next(), final handler before/after its response-writing call): one cookie, two cookies over all slot pairs, one name set twice, x %d value rotations; every exchange also carries one validly issued request cookie; the application without the middleware must answer with the planned status and cookies (self-check). Concurrent part: every ordered pair of 4 requests (with valid cookies, without, with a forged cookie; also a request with itself) in flight on ONE middleware instance, all interleavings with <=2 (thorough <=3) preemptions at the Encryptor/Decryptor/handler seams and at any shimmed sync operation of the middleware; each response, with its Set-Cookie values decrypted, must equal the response of the same request served alone (counters cc_executions, cc_points). Non-trivial = an exchange whose request carries at least one cookie that is not an unmodified issued one, or whose response carries a non-excepted non-empty cookie (counted in the loop).",
-				len(keys), len(names), nv, len(mutAlpha), len(keysB), len(menu2), len(menu3), len(badKeys), len(keysB), len(ends), len(menuE)),
+			"rule": fmt.Sprintf("every request/response exchange with the real middleware over ServeConn is one evaluation. Layer A: %d keys x %d names x %d values x 8 Except subsets (the 4 KiB value of the thorough tier: 3 Except sets), one cookie: issue, replay, then EVERY substitution of every character by each of the %d characters of base64+'='+'-'+' ', every prefix and suffix truncation, every one-character insertion at every position, the ciphertext of each other key, of each other value, of each other name, and the plaintext. Layer B: %d keys x all ordered name tuples of size 2 (value menu %d^2) and 3 (value menu %d^3) x 8 Except subsets: issue, replay in one / in separate Cookie headers while the handler sets cookies again, then a fixed family of ~85 manipulations on each position with the others valid, then all non-excepted positions manipulated at once. Layer C: %d invalid keys. Layer D: duplicate-name requests. Layer E (how the exchange ends): %d keys x 8 Except subsets x {default, custom ErrorHandler} x {app.Use chain, route-level handler chain} x %d handler ends (return nil with/without body, 201, redirect, SendStatus 403/502, *fiber.Error 401/503, plain error, body then *fiber.Error, wrapped *fiber.Error, c.Next() with no further route, no route at all, panic behind the recover middleware) x {downstream middleware propagates / answers the error} x cookie placements over 4 slots (downstream middleware before/after c.Next(), final handler before/after its response-writing call): one cookie, two cookies over all slot pairs, one name set twice, x %d value rotations; every exchange also carries one validly issued request cookie; the application without the middleware must answer with the planned status and cookies (self-check). Concurrent part: every ordered pair of 4 requests (with valid cookies, without, with a forged cookie; also a request with itself) in flight on ONE middleware instance, all interleavings with <=2 (thorough <=3) preemptions at the Encryptor/Decryptor/handler seams and at any shimmed sync operation of the middleware; each response, with its Set-Cookie values decrypted, must equal the response of the same request served alone (counters cc_executions, cc_points). Layer N (names vs Except): %d keys x %d Except lists (empty; one entry; the entry in front of / amid / behind 8 unrelated names; an entry twice; all names in three orders) built from %d related names (case variants, prefixes, extensions, one byte off, 64-byte names): all names in one exchange and every name alone, each issued, replayed and forged (truncated, substituted, other key, plaintext; for listed names: passed through); a name is excepted iff it is listed exactly. Layer M (many cookies): %d keys x %v cookies per request and response x Except {none, two of them}, forgeries at the first, second, middle, last-but-one and last position and at all positions at once. Layer L (long values): %d keys x %d names x values of %v bytes x Except {none, this name, the others}: issue, replay, the ~85 reduced manipulations, other key, plaintext; next to a short cookie in both orders. Layer K (kind of request, Config.Next): %d keys x %d Except subsets x Config.Next {nil, always false, true under /skip} x 7 methods x 3 spellings of the Cookie field name x 2 separators, three cookies issued, replayed and forged per request kind; a request Next answers true for precedes every judged one (itself outside the statement: outcome only). Layer F (the Encryptor fails): %d keys x 8 Except subsets x {entropy source returns an error, custom Encryptor returns an error} x {recover middleware in front, nothing in front} x 11 cookie sets of 1-3 cookies x the failing encryption (1st..nth, once / from then on): no plaintext of a non-excepted cookie in whatever reaches the wire, and the next exchange on the same application issues and accepts cookies as usual. Non-trivial = an exchange whose request carries at least one cookie that is not an unmodified issued one, or whose response carries a non-excepted non-empty cookie (counted in the loop).",
+				len(keys), len(names), nv, len(mutAlpha), len(keysB), len(menu2), len(menu3), len(badKeys), len(keysB), len(ends), len(menuE),
+				len(keysB), nLists, len(relNames), len(keysB), manyK, len(keysB), len(names), longLens, len(keysB), len(masksK), len(keysB)),
 			"bounds": map[string]any{"keys": len(keys), "key_lengths": []int{16, 24, 32}, "names": names, "values": nv, "max_value_bytes": len(vals[nv-1]),
-				"except_subsets": 8, "cookies_per_exchange_max": 3, "handler_ends": len(ends), "cookie_slots": nSlots, "mutation_alphabet": mutAlpha, "work_items": len(items), "workers": nw},
+				"except_subsets": 8, "cookies_per_exchange_max": 3, "handler_ends": len(ends), "cookie_slots": nSlots, "mutation_alphabet": mutAlpha, "work_items": len(items), "workers": nw,
+				"related_names": len(relNames), "except_lists": nLists, "cookies_per_request_many": manyK, "long_value_bytes": longLens,
+				"request_methods": kMethods, "config_next": nextName, "encryptor_failure_causes": causeName},
 		},
 		Assumptions: []string{
 			"AES-GCM, crypto/rand replaced by a SHA-256 counter stream (unique nonces), encoding/base64 and fasthttp's request parsing are trusted",
